@@ -2263,6 +2263,206 @@ def r03_17(ctx, counts) -> RuleResult:
     return res
 
 
+FLOAT_SOURCES = {'float', 'get_double', 'number_value', 'cast_to_double', 'fabs'}
+
+
+def r03_18(ctx, counts) -> RuleResult:
+    """math.isnan / isinf / isfinite convert an int to a C double first"""
+    model: Model = ctx.model
+    res = RuleResult(
+        'R03.18', 'FLOAT-PREDICATE-ON-UNBOUNDED-INTEGER',
+        'math.isnan(v), math.isinf(v) and math.isfinite(v) convert an int argument to a C double '
+        'and raise OverflowError beyond 1.8e308; xs:integer is unbounded here. In the functions '
+        'of the xpath1/xpath2/xpath30/xpath31 function and operator modules and of helpers.py every such call on '
+        'a name is either (a) preceded in the same `and` by isinstance(v, float) (or in the same '
+        '`or` by its negation, or by isinstance(v, int)), (b) under a branch fact '
+        'isinstance(v, float / Float / DoubleProxy) or not isinstance(v, int), (c) inside a try that handles '
+        'OverflowError / ArithmeticError, or (d) v is only ever assigned from float(..), '
+        'get_double, number_value, cast_to_double or get_argument(.., cls=float), or is a '
+        'parameter annotated float. Otherwise ceiling(10^400), substring("abc", 10^400) or '
+        'format-number(10^400, "0") escape as a bare OverflowError.')
+    n = 0
+    for f in sorted(model.all_functions(), key=lambda q: q.key):
+        mn = f.module.name
+        if not (mn.startswith('elementpath.xpath') and ('_functions' in mn or '_operators' in mn)) \
+                and mn != 'elementpath.helpers':
+            continue
+        calls = [c for c in walk_local(f.node) if isinstance(c, ast.Call)
+                 and dotted(c.func) in ('math.isnan', 'math.isinf', 'math.isfinite')
+                 and len(c.args) == 1]
+        if not calls:
+            continue
+        cfg = CFG(f.node, calls_may_raise)
+        facts = branch_facts(cfg)
+        tctx = try_context(f.node)
+        parent_of = {id(ch): par for par in ast.walk(f.node) for ch in ast.iter_child_nodes(par)}
+        # float-only names
+        defs: dict[str, list[ast.AST]] = {}
+        for x in walk_local(f.node):
+            if isinstance(x, (ast.Assign, ast.AnnAssign)) and x.value is not None:
+                for t in (x.targets if isinstance(x, ast.Assign) else [x.target]):
+                    for nm in (t.elts if isinstance(t, ast.Tuple) else [t]):
+                        if isinstance(nm, ast.Name):
+                            defs.setdefault(nm.id, []).append(
+                                x.value if not isinstance(t, ast.Tuple) else ast.Tuple())
+            elif isinstance(x, (ast.For, ast.comprehension)):
+                for nm in ast.walk(x.target):
+                    if isinstance(nm, ast.Name):
+                        defs.setdefault(nm.id, []).append(ast.Tuple())
+            elif isinstance(x, ast.AugAssign) and isinstance(x.target, ast.Name):
+                defs.setdefault(x.target.id, []).append(x.value)
+
+        def is_float_expr(v: ast.AST) -> bool:
+            if isinstance(v, ast.Constant):
+                return isinstance(v.value, float)
+            if isinstance(v, ast.Call):
+                last = dotted(v.func).split('.')[-1]
+                if last in FLOAT_SOURCES:
+                    return True
+                if last == 'get_argument':
+                    return any(k.arg == 'cls' and dotted(k.value) == 'float' for k in v.keywords)
+                if last == 'cast' and len(v.args) == 2:
+                    return dotted(v.args[0]) == 'float' and isinstance(v.args[1], ast.Call) \
+                        and dotted(v.args[1].func).split('.')[-1].startswith(('DoubleProxy', 'float'))
+            if isinstance(v, ast.IfExp):
+                return is_float_expr(v.body) and is_float_expr(v.orelse)
+            return False
+        ann = {a.arg: stmt_text(a.annotation) for a in f.node.args.args + f.node.args.kwonlyargs
+               if a.annotation is not None}
+        for c in calls:
+            n += 1
+            arg = c.args[0]
+            label = f'{f.key}: L{c.lineno} `{stmt_text(c)[:40]}`'
+            ok_reason = None
+            if not isinstance(arg, ast.Name):
+                if is_float_expr(arg):
+                    ok_reason = 'argument is a float expression'
+                else:
+                    name = stmt_text(arg)
+            if isinstance(arg, ast.Name):
+                name = arg.id
+                if name in defs and all(is_float_expr(v) for v in defs[name]):
+                    ok_reason = 'only assigned floats'
+                elif name not in defs and ann.get(name) == 'float':
+                    ok_reason = 'parameter annotated float'
+            if ok_reason is None:
+                # (a) same `and`
+                par = parent_of.get(id(c))
+                node = c
+                while par is not None and isinstance(par, (ast.UnaryOp, ast.BoolOp)) and ok_reason is None:
+                    if isinstance(par, ast.BoolOp) and isinstance(par.op, ast.And):
+                        idx = [i for i, v in enumerate(par.values) if v is node][0]
+                        for v in par.values[:idx]:
+                            if isinstance(v, ast.Call) and dotted(v.func) == 'isinstance' \
+                                    and stmt_text(v.args[0]) == name \
+                                    and 'int' not in stmt_text(v.args[1]).lower().replace('float', ''):
+                                ok_reason = 'isinstance conjunct'
+                    elif isinstance(par, ast.BoolOp) and isinstance(par.op, ast.Or):
+                        idx = [i for i, v in enumerate(par.values) if v is node][0]
+                        for v in par.values[:idx]:
+                            neg = isinstance(v, ast.UnaryOp) and isinstance(v.op, ast.Not)
+                            t = v.operand if neg else v
+                            if isinstance(t, ast.Call) and dotted(t.func) == 'isinstance' \
+                                    and stmt_text(t.args[0]) == name:
+                                cls_txt = stmt_text(t.args[1])
+                                if neg and 'int' not in cls_txt.lower().replace('float', ''):
+                                    ok_reason = 'not isinstance(.., float) disjunct'
+                                elif not neg and cls_txt in ('int', '(int, bool)', '(bool, int)'):
+                                    ok_reason = 'isinstance(.., int) disjunct'
+                    node, par = par, parent_of.get(id(par))
+            if ok_reason is None:
+                holder = None
+                for nd in cfg.nodes:
+                    if nd.ast is not None and nd.kind in ('stmt', 'test') and any(
+                            y is c for e in nd.exprs() for y in ast.walk(e)):
+                        holder = nd
+                        break
+                fs = facts[holder.id] if holder is not None else frozenset()
+                for fa in fs:
+                    if fa.startswith('+') and f'isinstance({name}, ' in fa and (
+                            'float' in fa or 'Float' in fa or 'DoubleProxy' in fa) \
+                            and 'int' not in fa.lower().replace('float', '').replace('isinstance', ''):
+                        ok_reason = f'fact {fa}'
+                    elif fa in (f'-isinstance({name}, int)', f'-isinstance({name}, (int, bool))'):
+                        ok_reason = f'fact {fa}'
+            if ok_reason is None:
+                for tr, part in tctx.get(id(c), []):
+                    if part == 'body' and any(
+                            nm.split('.')[-1] in ('OverflowError', 'ArithmeticError', 'Exception')
+                            for h in tr.handlers for nm in handler_names(model, f.module, h)):
+                        ok_reason = 'try/except OverflowError'
+            res.instances.append(f'{label}: {ok_reason or "UNGUARDED"}')
+            if ok_reason:
+                res.ok()
+            else:
+                res.fail(finding('R03.18', f, c, f'{stmt_text(c)[:30]} on a possible integer',
+                                 f'`{stmt_text(c)[:50]}`: `{name}` can be an xs:integer beyond the '
+                                 f'range of a C double (no isinstance(.., float) guard, no float '
+                                 f'conversion, no OverflowError handler): e.g. an argument 10^400 '
+                                 f'escapes as a bare OverflowError'))
+    counts['float_predicates'] = n
+    if n < 10:
+        raise AnalysisError(f'math.isnan/isinf calls located in the function modules: {n} < 10')
+    return res
+
+
+def r03_19(ctx, counts) -> RuleResult:
+    """a token that can stay in the tree defines evaluate or select"""
+    res = RuleResult(
+        'R03.19', 'EVALUABLE-TOKENS',
+        'XPathToken.evaluate() is xlist(self.select()) and XPathToken.select() iterates '
+        'self.evaluate(): a token class that overrides neither recurses until RecursionError, '
+        'which is not an ElementPathError. Every registered symbol whose nud or led can return '
+        'the token itself (a `return self`, or the inherited XPathFunction.nud) therefore has an '
+        'evaluate or a select of its own (registered method, or defined by a class other than '
+        'XPathToken / Token). `empty-sequence() and lt` ended in a RecursionError.')
+    n = 0
+
+    def is_default(ref) -> bool:
+        return ref is None or ref.func is None or (
+            ref.func.cls is not None and ref.func.cls.name in ('XPathToken', 'Token'))
+
+    def returns_self(ref) -> bool:
+        if ref is None or ref.func is None:
+            return False
+        fn = ref.func
+        if fn.cls is not None and fn.cls.name == 'Token':
+            return False          # the defaults raise a syntax error
+        if fn.cls is not None and fn.cls.name == 'ProxyToken':
+            return False          # replaced by the resolved function token
+        me = fn.params()[0] if fn.params() else 'self'
+        return any(isinstance(x, ast.Return) and isinstance(x.value, ast.Name) and x.value.id == me
+                   for x in walk_local(fn.node))
+    seen: set[tuple[str, str]] = set()
+    for rec in ctx.reg.all_records():
+        stays = returns_self(rec.method('nud')) or returns_self(rec.method('led'))
+        if not stays:
+            continue
+        key = (rec.symbol, rec.lookup_name)
+        if key in seen:
+            continue
+        seen.add(key)
+        n += 1
+        ok = not (is_default(rec.method('evaluate')) and is_default(rec.method('select')))
+        if ok:
+            res.ok()
+        else:
+            res.instances.append(f'{rec.symbol!r} ({"/".join(rec.label_values)}): neither evaluate '
+                                 f'nor select')
+            ref = rec.method('nud') or rec.method('led')
+            res.fail(finding('R03.19', ref.func, ref.func.node, f'{rec.symbol} not evaluable',
+                             f'the symbol {rec.symbol!r} ({"/".join(rec.label_values) or "token"}) '
+                             f'is parsed into the tree ({ref.func.key} returns the token) but '
+                             f'defines neither evaluate nor select: the mutually recursive '
+                             f'defaults of XPathToken end in a RecursionError, e.g. for '
+                             f'`{rec.symbol}() and lt`'))
+    res.instances.append(f'{n} symbols that stay in the tree checked for evaluate/select')
+    counts['evaluable_symbols'] = n
+    if n < 150:
+        raise AnalysisError(f'symbols whose nud/led returns the token: {n} < 150')
+    return res
+
+
 def run(ctx) -> dict:
     counts: dict[str, int] = {}
     results = [r03_1(ctx, counts), r03_2(ctx, counts), r03_3(ctx, counts), r03_4(ctx, counts),
@@ -2270,7 +2470,8 @@ def run(ctx) -> dict:
                r03_8(ctx, counts), r03_9(ctx, counts), r03_10(ctx, counts),
                r03_11(ctx, counts), r03_12(ctx, counts), r03_13(ctx, counts),
                r03_14(ctx, counts), r03_15(ctx, counts),
-               r03_16(ctx, counts), r03_17(ctx, counts)]
+               r03_16(ctx, counts), r03_17(ctx, counts), r03_18(ctx, counts),
+               r03_19(ctx, counts)]
     # "no call hangs": the lock discipline of C19 is a necessary condition (a lock left held on
     # an error path blocks every later evaluation that needs it)
     from . import c19_global
